@@ -17,4 +17,5 @@ func checkC02(p *Prog, r *Report) {
 	r.Rule("R02g", "rejection before placeholder: a translator function (result type from the GooseLang syntax package) returns a placeholder — nil, the empty string, the zero value of a struct with fields — only where a diverging rejection call precedes the return (the return is unreachable), where a dominating fact says the input was absent (a parameter itself is nil or empty), or where an audited reason applies; a guard whose rejection call is missing silently drops the construct; no branch of the translator has an empty body and no else", 20)
 	checkR02g(p, r)
 	checkEmptyGuards(p, r)
+	checkR02h(p, r)
 }
